@@ -232,6 +232,12 @@ public:
                             std::chrono::milliseconds timeout =
                               std::chrono::milliseconds{30000}) override;
 
+  /// \brief connectSync() to an address the caller has already resolved, on behalf of
+  /// host name \p tlsServerName: the name is sent as SNI and, with verifyPeer, the peer
+  /// certificate must be issued for it. An empty name behaves like connectSync().
+  ConnectResult connectSync(const std::string &host, std::uint16_t port, TlsMode tls,
+                            std::chrono::milliseconds timeout, const std::string &tlsServerName);
+
   SendResult sendSync(SessionId sid, iora::core::BufferView data,
                       std::chrono::milliseconds timeout =
                         std::chrono::milliseconds{30000}) override;
